@@ -11,7 +11,7 @@ from __future__ import annotations
 
 import time
 
-from checks import irload
+from checks import e1common, irload
 from checks.common import Report, StandIn, json_from, run_py
 from engine.pegfacts import Facts
 from engine.pegir import walk_pe
@@ -51,10 +51,12 @@ def progress_obligations(rep: Report, ir, prop: str):
 def run(rep: Report):
     ir = irload.ir("xonsh")
     rep.trust("engine/pegir.py extractor", "engine/pegfacts.py + engine/pegmemo.py (own fixpoint / graph procedures)", "CPython ast")
-    rep.assume("cost model: one evaluation of a memoised method at a position is a dictionary lookup except the first (E1 contract of memoize / memoize_left_rec)",
+    rep.assume("cost model: one evaluation of a memoised method at a position is a dictionary lookup except the first (E1 contracts of memoize / memoize_left_rec, discharged here)",
                "tokens of type FSTRING_MIDDLE / MACRO_PARAM are never offered to an `expect` of a grammar literal (first-set overlap)",
                "NOT modelled: re-exploration by the continuation after a shorter alternative succeeds; the linear bound itself (only polynomial follows); "
                "recursion depth limits (RecursionError at ~30 nested brackets is C03's known finding)")
+    # the cost model's premise: the memoising wrappers replay a recorded outcome (success or failure) without running the method
+    e1common.file_into(rep, "C18", rep.tier, only={"memoize.memoize_wrapper", "memoize_left_rec.memoize_left_rec_wrapper"})
     if ir.unrecognised:
         for n, u in ir.unrecognised.items():
             rep.undecided(f"C18.extract.{n}", "structural", f"extract method {n}", "pegir-unify", u.reason)
